@@ -1,17 +1,7 @@
 From Coq Require Import ZArith List Bool Lia.
-From F3 Require Import GoInt ServerGen Exchange.
+From F3 Require Import GoInt ListX ServerGen Exchange.
 Import ListNotations.
 Open Scope Z_scope.
-
-Lemma zseq_length a n : length (zseq a n) = n.
-Proof. revert a; induction n; simpl; intros; auto. Qed.
-
-Lemma zseq_in a n x : In x (zseq a n) <-> a <= x < a + Z.of_nat n.
-Proof.
-  revert a; induction n as [|n IH]; intros a; cbn [zseq In].
-  - lia.
-  - rewrite IH. lia.
-Qed.
 
 Lemma wu x : 0 <= x < two64 -> wrap_u64 x = x.
 Proof. intros. apply wrap_u64_id. exact H. Qed.
